@@ -930,6 +930,12 @@ def c03(ck):
                          "jit": la[first] if first < len(la) else None, "interp": lb[first] if first < len(lb) else None,
                          "scenario": sc}, "shape-" + shape)
     if thorough:
+        # unbounded argument (optional, time-boxed, never the verdict): Apalache discharges the inductive invariant of
+        # the typed restatement for any number of banks, and refutes it for the variant without tag synchronisation
+        ap = {"base": vlib.apalache("ApaCodeCache.tla", ["--cinit=ConstInit", "--init=Init", "--inv=IndInv", "--length=0"]),
+              "step": vlib.apalache("ApaCodeCache.tla", ["--cinit=ConstInit", "--init=IndInit", "--inv=IndInv", "--length=1"]),
+              "step_without_sync": vlib.apalache("ApaCodeCache.tla", ["--cinit=ConstInitBug", "--init=IndInit", "--inv=IndInv", "--length=1"])}
+        ck.extra["apalache_inductive_invariant"] = ap
         recs = gbv(["cache-pressure", "--banks", 60, "--steps", 200000, "--capture", os.path.join(rundir(), "cp.stdout")], jit=True, timeout=3600)
         for r in recs:
             if r.get("kind") == "crash":
